@@ -511,7 +511,7 @@ class Ctx:
         explicit = bool(v)
         if not v:
             v = self.last_variant
-        if not v:
+        if not v or str(key).startswith('model-error'):          # (a driver that died says nothing about the implementation)
             return key, case, []
         vs = [v] if isinstance(v, dict) else list(v)
         # which bct functions does the key name?  '<function>:<clause>', '<function>[..]:<clause>', pairs 'f/g', 'agree:f/g[..]'
@@ -536,9 +536,9 @@ class Ctx:
         for f in self.findings:
             if f.get('status') != 'open' or (need_corr and not f.get('covers_correspondence')):
                 continue
-            # exact key, or a finding about one (function, representation): "<function>:*[<kind>]" covers every clause judged on
-            # a call of that function that ran on that representation (the function is known to be wrong for it)
-            if f.get('key') in keys or (f.get('variant_function'), f.get('variant_kind')) in attributed:
+            # exact key, or a finding about (function, representation) pairs (known_findings.d/variants.json, grouped by root cause):
+            # it covers every clause judged on a converted call of such a pair (the function is known to be wrong for that storage)
+            if f.get('key') in keys or any(tuple(pr) in attributed for pr in f.get('variant_pairs', ())):
                 key = f['key']
                 if key not in self.known_hits:
                     self.known_hits[key] = {'what': what, 'case': tolist(case), 'n': 0, 'finding': f}
@@ -619,6 +619,7 @@ def finish(ctx, st):
         'extraction: Extraction Language OCaml + ExtrOcamlBasic (bool, option, unit, list, prod, sumbool, sumor mapped to OCaml); no Extract Constant / Extract Inductive of our own; OCaml 4.13.1; ocaml/common.ml + ocaml/drv_%s.ml parser/printer' % pid.lower(),
         'correspondence harness harness/%s.py + harness/common.py running /repo with NumPy (differential testing: samples, does not prove model = code)' % pid.lower(),
         'modelled, not verified: binary64 rounding, NumPy indexing/broadcasting semantics, LAPACK, Mersenne Twister (abstracted to an arbitrary stream), CPython',
+        variants_trusted_line(ctx),
     ] + list(getattr(mod, 'TRUSTED', []))
     cov = {
         'obligations': st['obligations'], 'discharged': st['discharged'],
@@ -675,7 +676,7 @@ _INT_RANGE = {'int64': (-2.0 ** 53 + 1, 2.0 ** 53 - 1), 'int32': (-2.0 ** 31, 2.
               'bool': (0.0, 1.0)}
 _VAR = {'ctx': None, 'off': 0, 'real': None, 'proxy': None, 'wrapped': set(), 'retry': [], 'p': 0.25, 'counter': 0, 'pending': {}, 'ncalls': {}, 'skip': set(),
         'kinds': VARIANT_KINDS, 'salt': 0, 'sigs': {}}
-VARIANTS_DEFAULT = '0'    # while the layer is being triaged (other agents run ./check concurrently); '1' once the tree is green with it
+VARIANTS_DEFAULT = '1'    # the layer is on unless VERIF_VARIANTS=0
 FORCE_WINDOW = 300        # per function: calls during which a not-yet-exercised kind is taken as soon as it applies
 
 
@@ -783,8 +784,11 @@ def _var_plan(name, f, a, k, ctx):
         return None
     if 'copy' in names and names.index('copy') < len(a) and a[names.index('copy')] is False:
         return None
-    r = random.Random(((ctx.seed * 1000003 + int(ctx.pid[1:])) * 1000003 + st['salt']) * 1000003 + st['counter'])
-    take = r.random() < st['p']
+    key = ((ctx.seed * 1000003 + int(ctx.pid[1:])) * 1000003 + st['salt']) * 1000003 + st['counter']
+    z = (key * 0x9E3779B97F4A7C15 + 0xBF58476D1CE4E5B9) & 0xFFFFFFFFFFFFFFFF          # splitmix-style scramble of (seed, property, call counter)
+    z = ((z ^ (z >> 30)) * 0xBF58476D1CE4E5B9) & 0xFFFFFFFFFFFFFFFF
+    z = ((z ^ (z >> 27)) * 0x94D049BB133111EB) & 0xFFFFFFFFFFFFFFFF
+    take = ((z ^ (z >> 31)) >> 11) / float(1 << 53) < st['p']
     n = st['ncalls'][name] = st['ncalls'].get(name, 0) + 1
     pend = st['pending'].setdefault(name, set(st['kinds']))
     look = bool(pend) and n <= FORCE_WINDOW
@@ -803,6 +807,7 @@ def _var_plan(name, f, a, k, ctx):
                 return kd, app[kd]
     if not take:
         return None
+    r = random.Random(key)
     kd = r.choice([x for x in st['kinds'] if x in app])
     ws = [w for w in app[kd] if r.random() < 0.7] or [app[kd][r.randrange(len(app[kd]))]]
     pend.discard(kd)
@@ -952,7 +957,94 @@ def install_variants(ctx):
     return proxy
 
 
+def variants_trusted_line(ctx):
+    iv = ctx.extra.get('input_variants')
+    if not isinstance(iv, dict):
+        return 'input-representation layer (harness/common.py install_variants): %s for this run' % (iv or 'not installed')
+    n = sum(v for k, v in ctx.dist.items() if k.startswith('variant:'))
+    return ('input-representation layer (harness/common.py install_variants, design_notes/variants.md): %d of the harness\'s bct calls were made on another '
+            'storage of the SAME values (kinds %s; value-preserving conversions only, decided by a generator of its own) and judged by the same oracle and '
+            'model correspondence; trusted: numpy astype / asfortranarray / slicing preserve the values, and the harness\'s verdict does not depend on the '
+            'identity of the array object it passed (harnesses that do depend on it opt out: VARIANTS_OFF / no_variants)' % (n, ', '.join(iv['kinds'])))
+
+
 def uninstall_variants():
     if _VAR['real'] is not None:
         sys.modules['bct'] = _VAR['real']
     _VAR['ctx'] = None
+
+
+# ---- replay of a failure found on a converted call (./check CXX --replay <file>, tools/variant_repro.py <file>)
+def _var_dec(x):
+    if isinstance(x, dict) and 'ndarray' in x:
+        return np.array(x['ndarray'], dtype=np.dtype(x['dtype'])).reshape(x['shape'])
+    if isinstance(x, list):
+        return [_var_dec(y) for y in x]
+    return x
+
+
+def variant_records(payload):
+    out = []
+
+    def walk(x):
+        if isinstance(x, dict):
+            v = x.get('_input_variant')
+            if v:
+                out.extend([v] if isinstance(v, dict) else v)
+            for q, y in x.items():
+                if q != '_input_variant':
+                    walk(y)
+        elif isinstance(x, list):
+            for y in x:
+                walk(y)
+    walk(payload)
+    return [r for r in out if isinstance(r, dict) and 'call' in r]
+
+
+def replay_variants(payload, limit=4):
+    """for every `_input_variant` record of a replay file: make the recorded call on the float64 arrays as written and on the same
+    values in the recorded representation; print both outcomes.  -> 1 when some pair of outcomes differs, else 0"""
+    import bct
+    real = _VAR['real'] or bct
+
+    def outcome(f, a, k):
+        try:
+            return 'returns', call(f, *a, _t=60.0, **k)
+        except Timeout:
+            return 'raises', 'Timeout (60 s)'
+        except Exception as e:
+            return 'raises', '%s: %s' % (type(e).__name__, str(e)[:200])
+
+    def same(x, y):
+        if isinstance(x, (tuple, list)) and isinstance(y, (tuple, list)):
+            return len(x) == len(y) and all(same(p, q) for p, q in zip(x, y))
+        try:
+            return bool(np.allclose(np.asarray(x, float), np.asarray(y, float), rtol=1e-9, atol=1e-12, equal_nan=True))
+        except Exception:
+            return repr(x) == repr(y)
+    rc = 0
+    for r in variant_records(payload)[:limit]:
+        f = getattr(real, r['function'], None)
+        if f is None:
+            print('input representation: %s is not a public bct function of this tree' % r['function']); continue
+        a, k = _var_dec(r['call']['args']), {q: _var_dec(v) for q, v in r['call']['kwargs'].items()}
+        objs = [x for x in list(a) + list(k.values()) if isinstance(x, str) and ('RandomState' in x or ' at 0x' in x or x.startswith('<'))]
+        a2, k2 = list(a), dict(k)
+        for w in r['arguments']:
+            if w.startswith('positional '):
+                a2[int(w.split()[1])] = apply_variant(r['kind'], a[int(w.split()[1])])
+            else:
+                k2[w] = apply_variant(r['kind'], k[w])
+        print('input representation: %s(...) with argument(s) %s stored as %s  [%s]' % (r['function'], ', '.join(r['arguments']), r['kind'], VARIANT_HOW[r['kind']]))
+        if objs:
+            print('  (an argument of the recorded call was an object the file cannot hold - %s - the call is not repeated here; see the case above)' % objs[0][:60])
+            continue
+        s0, r0 = outcome(f, [x.copy() if isinstance(x, np.ndarray) else x for x in a], k)
+        s1, r1 = outcome(f, a2, k2)
+        print('  float64, C-ordered : %s %s' % (s0, str(tolist(r0))[:500]))
+        print('  %-19s: %s %s' % (r['kind'], s1, str(tolist(r1))[:500]))
+        differ = s0 != s1 or (s0 == 'returns' and not same(r0, r1))
+        print('  -> %s' % ('the two calls DIFFER although the values are the same' if differ else
+                           'same outcome for both storages (the clause that failed is wrong for both, or compares with another call: see the case)'))
+        rc |= int(differ)
+    return rc
